@@ -330,8 +330,42 @@ fn sched_point(me: usize, m: Mode) -> Option<MutexGuard<'static, Option<State>>>
 }
 
 /// Called before a blocking lock acquisition.
+thread_local! {
+    /// delay injection for free-running (unscheduled) threads: (lock operations to go, microseconds)
+    static DELAY: Cell<(u32, u32)> = const { Cell::new((0, 0)) };
+    static DELAY_FIRED: Cell<bool> = const { Cell::new(false) };
+}
+
+/// Free-running threads only: sleep `micros` microseconds just before this thread's `after`-th
+/// lock acquisition from now (noise injection for races the scheduler cannot own, e.g. around
+/// `std::sync::Once`).
+pub fn set_delay(after: u32, micros: u32) {
+    DELAY.with(|d| d.set((after, micros)));
+    DELAY_FIRED.with(|f| f.set(false));
+}
+
+/// Clears the plan; true if the delay was injected.
+pub fn clear_delay() -> bool {
+    DELAY.with(|d| d.set((0, 0)));
+    DELAY_FIRED.with(|f| f.replace(false))
+}
+
+fn delay_point() {
+    let (n, us) = DELAY.with(|d| d.get());
+    if n > 0 {
+        DELAY.with(|d| d.set((n - 1, us)));
+        if n == 1 {
+            DELAY_FIRED.with(|f| f.set(true));
+            std::thread::sleep(std::time::Duration::from_micros(us as u64));
+        }
+    }
+}
+
 pub fn acquire(addr: usize, m: Mode) {
-    let Some(me) = TID.with(|t| t.get()) else { return };
+    let Some(me) = TID.with(|t| t.get()) else {
+        delay_point();
+        return;
+    };
     let Some(mut g) = sched_point(me, m) else { return };
     loop {
         let s = g.as_mut().unwrap();
